@@ -5,6 +5,7 @@ import (
 	"fmt"
 	"sort"
 	"strings"
+	"sync"
 	"time"
 
 	"github.com/aml-org/amf-custom-validator/pkg"
@@ -179,9 +180,9 @@ func C03(e *core.Env) {
 		return g
 	}
 	graphs := []Graph{
-		mk([][3]bool{{true, true, true}, {true, true, true}}),                           // everything passes
+		mk([][3]bool{{true, true, true}, {true, true, true}}),                          // everything passes
 		mk([][3]bool{{false, true, true}, {true, false, false}, {false, false, true}}), // mixed
-		{Nodes: []GNode{{ID: NodeID(0), Types: []string{ExNS + "Other"}}}},              // no target
+		{Nodes: []GNode{{ID: NodeID(0), Types: []string{ExNS + "Other"}}}},             // no target
 	}
 	configs := []config.ReportConfiguration{}
 	for _, inc := range []bool{true, false} {
@@ -397,7 +398,7 @@ func checkWellFormed(rep *Report, raw string, graphIDs map[string]bool, names ma
 func C12(e *core.Env) {
 	res := e.Res
 	res.Rule = "cases = (profile, graph); profiles built from the C01 formula generator so that results carry several traces (or-branches), sub-results to depth <= 3 (quick) / 4 (thorough), several results per node and per level, with and without lexical locations; " +
-		"each report: JSON shape, every @id of a typed node unique, focus nodes in the graph, names in the profile, message and trace non-empty, and the positional id scheme equal to the model's; non-trivial = the report has a result with a sub-result or more than one trace; distinct by (profile, graph)"
+		"plus 16 YAML spellings of the message (absent, blank, null, number, boolean, date, sequence, mapping, tagged, quoted, block) and 12 goroutines x 4 (quick) / 25 (thorough) reports built at once from one compiled profile; each report: JSON shape, every @id of a typed node unique, focus nodes in the graph, names in the profile, message and trace non-empty, and the positional id scheme equal to the model's; non-trivial = the report has a result with a sub-result or more than one trace; distinct by (profile, graph)"
 	cnt := func(p string, k int) FForm {
 		return fAtom(FAtom{Kind: "count", Q: "min", Path: Pr(p, false), K: k})
 	}
@@ -558,6 +559,118 @@ func C12(e *core.Env) {
 			res.Distribution["typed_nodes"] += strings.Count(out, "\"@id\"")
 			if start == 4 && di == 1 {
 				res.Sample(map[string]any{"profile": profile, "report_bytes": len(out), "results": len(rep.Results), "typed_nodes": strings.Count(out, "\"@id\"")})
+			}
+		}
+	}
+
+	// every way of writing (or not writing) the message of a validation that YAML accepts: the result still names a
+	// non-empty message. (`message: ""` is left out: there the author asked for the empty text, see C13.)
+	spellings := []string{"", "message:", "message: ~", "message: null", "message: 404", "message: 4.5", "message: false", "message: 2001-12-14",
+		"message: [a, b]", "message: {a: b}", "message: 0x1F", "message: .inf", "message: !!str 12", "message: 'quoted'", "message: plain text", "message: |\n      block\n      text"}
+	for si, sp := range spellings {
+		var b strings.Builder
+		b.WriteString(ProfileHeader)
+		b.WriteString("violation:\n  - v0\nwarning:\n  - v1\nvalidations:\n")
+		for v := 0; v < 2; v++ {
+			fmt.Fprintf(&b, "  v%d:\n    targetClass: ex.T\n", v)
+			if sp != "" {
+				b.WriteString("    " + sp + "\n")
+			}
+			if v == 0 {
+				b.WriteString("    propertyConstraints:\n      ex.never:\n        minCount: 1\n")
+			} else {
+				b.WriteString("    propertyConstraints:\n      ex.kid:\n        nested:\n          propertyConstraints:\n            ex.never:\n              minCount: 1\n")
+			}
+		}
+		profile := b.String()
+		out, err := pkg.ValidateWithConfiguration(profile, datas[si%2], false, nil, clockA, rc)
+		replay := map[string]any{"profile": profile, "data": core.Trunc(datas[si%2], 6000), "message_spelling": sp}
+		res.Case(fmt.Sprintf("message-spelling|%d", si), true)
+		res.Count("stream=message-spelling")
+		if err != nil {
+			// a profile the parser rejects is no report at all; only a report has to be complete
+			res.Count("message-spelling-rejected")
+			continue
+		}
+		replay["report"] = core.Trunc(out, 3000)
+		rep, err := ParseReport(out)
+		if err != nil {
+			res.Violate("impl-violates-property", "the report is not one dialect instance encoding one report node: "+err.Error(), replay)
+			continue
+		}
+		if len(rep.Results) == 0 {
+			res.Violate("harness-error", "the message-spelling profile reports nothing", replay)
+		}
+		if bad := checkWellFormed(rep, out, graphIDs, map[string]bool{"v0": true, "v1": true}); len(bad) > 0 {
+			replay["failed_predicates"] = bad
+			res.Violate("impl-violates-property", "report not well-formed when the message is written `"+sp+"`: "+bad[0], replay)
+		}
+	}
+
+	// reports built at the same time: the ids of one report never depend on another report being assembled
+	{
+		var b strings.Builder
+		b.WriteString(ProfileHeader)
+		b.WriteString("violation:\n  - v0\n  - v1\nvalidations:\n")
+		for v, f := range []FForm{fNested("all", 0, kid, fNested("all", 0, kid, fOr(cnt("ex.never", 1), in("ex.p0")))), fOr(cnt("ex.never", 1), in("ex.never"), cnt("ex.never2", 1))} {
+			m := f.Expr()
+			m["targetClass"] = "ex.T"
+			d, _ := json.Marshal(m)
+			fmt.Fprintf(&b, "  v%d: %s\n", v, d)
+		}
+		profile := b.String()
+		q, err := pkg.CompileProfile(profile, false, nil)
+		if err != nil {
+			res.Violate("impl-violates-property", "validation fails: "+err.Error(), map[string]any{"profile": profile})
+			return
+		}
+		ref, err := pkg.ValidateCompiledWithConfiguration(q, datas[1], false, nil, clockA, rc)
+		if err != nil {
+			res.Violate("impl-violates-property", "validation fails: "+err.Error(), map[string]any{"profile": profile, "data": datas[1]})
+			return
+		}
+		workers, rounds := 12, e.Pick(4, 25)
+		outs := make([][]string, workers)
+		var wg sync.WaitGroup
+		for w := 0; w < workers; w++ {
+			wg.Add(1)
+			go func(w int) {
+				defer wg.Done()
+				for r := 0; r < rounds; r++ {
+					o, err := pkg.ValidateCompiledWithConfiguration(q, datas[1], false, nil, clockA, rc)
+					if err != nil {
+						o = "error: " + err.Error()
+					}
+					outs[w] = append(outs[w], o)
+				}
+			}(w)
+		}
+		wg.Wait()
+		reported := 0
+		for w := range outs {
+			for r, o := range outs[w] {
+				res.Case(fmt.Sprintf("concurrent|%d|%d", w, r), true)
+				res.Count("stream=concurrent-report-building")
+				if reported >= 2 {
+					continue
+				}
+				replay := map[string]any{"profile": profile, "data": core.Trunc(datas[1], 6000), "history": fmt.Sprintf("%d goroutines x %d ValidateCompiledWithConfiguration calls on one compiled profile at the same time; this is the report of goroutine %d, call %d", workers, rounds, w, r),
+					"report": core.Trunc(o, 6000)}
+				rep, err := ParseReport(o)
+				if err != nil {
+					reported++
+					res.Violate("impl-violates-property", "a report built while other reports are being built is not a report: "+core.Trunc(err.Error(), 200), replay)
+					continue
+				}
+				if bad := checkWellFormed(rep, o, graphIDs, map[string]bool{"v0": true, "v1": true}); len(bad) > 0 {
+					reported++
+					replay["failed_predicates"] = bad
+					res.Violate("impl-violates-property", "a report built while other reports are being built is not well-formed: "+bad[0], replay)
+				} else if o != ref {
+					reported++
+					replay["sequential_report"] = core.Trunc(ref, 6000)
+					res.Violate("impl-violates-property", "a report built while other reports are being built differs from the report of the same call made alone", replay)
+				}
 			}
 		}
 	}
